@@ -1,0 +1,83 @@
+//go:build verif
+
+package security
+
+import "context"
+
+// Verification hooks for property C11 (TOKEN / AKEP2 authentication).
+// Add-only: thin exported wrappers around unexported functions, compiled only
+// with -tags verif.
+
+// VerifC11TokenAuth runs the real TOKEN handshake role selected by neg.IsClient.
+func VerifC11TokenAuth(ctx context.Context, a *Authenticator, method AuthMethod, neg *SecurityNegotiation) error {
+	return a.performTokenAuthentication(ctx, method, neg)
+}
+
+// VerifC11ValidateTokenTiming exposes validateTokenTiming (uses time.Now()).
+func VerifC11ValidateTokenTiming(claims map[string]interface{}, cfg *SecurityConfig) error {
+	a := &Authenticator{}
+	return a.validateTokenTiming(claims, cfg)
+}
+
+// VerifC11ComputeTokenSignature exposes computeTokenSignature.
+func VerifC11ComputeTokenSignature(signingKey []byte, tokenData string) []byte {
+	a := &Authenticator{}
+	return a.computeTokenSignature(signingKey, tokenData)
+}
+
+// VerifC11DeriveTokenKeys exposes deriveTokenKeys: (K, K').
+func VerifC11DeriveTokenKeys(token string, signature []byte) ([]byte, []byte, error) {
+	a := &Authenticator{}
+	d := &TokenAuthData{Token: token, Signature: signature}
+	err := a.deriveTokenKeys(d)
+	return d.SharedKeyK, d.SharedKeyKP, err
+}
+
+// VerifC11LoadSigningKey exposes loadSigningKey.
+func VerifC11LoadSigningKey(keyID string, cfg *SecurityConfig) ([]byte, error) {
+	a := &Authenticator{}
+	return a.loadSigningKey(keyID, cfg)
+}
+
+// VerifC11ComputeTokenMAC exposes computeTokenMAC.
+func VerifC11ComputeTokenMAC(key []byte, parts ...interface{}) []byte {
+	a := &Authenticator{}
+	return a.computeTokenMAC(key, parts...)
+}
+
+// VerifC11VerifyTokenMAC exposes verifyTokenMAC.
+func VerifC11VerifyTokenMAC(key []byte, clientID, serverID string, ra, rb, mac []byte) error {
+	a := &Authenticator{}
+	return a.verifyTokenMAC(key, clientID, serverID, ra, rb, mac)
+}
+
+// VerifC11DeriveSessionKey exposes deriveSessionKey.
+func VerifC11DeriveSessionKey(rb []byte) []byte {
+	a := &Authenticator{}
+	return a.deriveSessionKey(rb)
+}
+
+// VerifC11LoadSingleToken exposes loadSingleToken: (ClientID, Token, Signature).
+func VerifC11LoadSingleToken(tokenStr string) (string, string, []byte, error) {
+	a := &Authenticator{}
+	d := &TokenAuthData{}
+	err := a.loadSingleToken(tokenStr, d)
+	return d.ClientID, d.Token, d.Signature, err
+}
+
+// VerifC11LoadToken exposes loadTokenForAuthentication for a client config.
+func VerifC11LoadToken(method AuthMethod, cfg *SecurityConfig) (string, string, []byte, error) {
+	a := &Authenticator{config: cfg}
+	d := &TokenAuthData{}
+	err := a.loadTokenForAuthentication(method, d, &SecurityNegotiation{IsClient: true, ClientConfig: cfg})
+	return d.ClientID, d.Token, d.Signature, err
+}
+
+// VerifC11ValidateToken exposes validateTokenAndDeriveKeys on a step-1 state
+// (claimed client id, two-part token): (ClientID, ServerID, Signature, K).
+func VerifC11ValidateToken(claimedID, token string, serverCfg *SecurityConfig) (string, string, []byte, []byte, error) {
+	a := &Authenticator{config: serverCfg}
+	d := &TokenAuthData{ClientID: claimedID, Token: token}
+	err := a.validateTokenAndDeriveKeys(d, &SecurityNegotiation{ServerConfig: serverCfg})
+	return d.ClientID, d.ServerID, d.Signature, d.SharedKeyK, err
+}
